@@ -331,7 +331,7 @@ def replay(case):
     from isla.helpers import canonical
     from grammar_graph import gg
 
-    r = Result()
+    r = Result(keep_all=True)
     if case["kind"] == "fixed":
         g = case["g"]
         cg = canon(g)
